@@ -7,7 +7,7 @@ package schema
 // plugin-level checks (C12 converse, C14, C15, C18).
 func ProfileFull(avoid map[string]string) *Profile {
 	return &Profile{Name: "full", MaxDataMessages: 3, MaxFields: 5, Nested: true, Recursive: true, Maps: true, Oneofs: true,
-		Optionals: true, Repeateds: true, Enums: true, Timestamps: true, MessageFields: true, SecondFile: true,
+		Optionals: true, Repeateds: true, Enums: true, Timestamps: true, MessageFields: true, SecondFile: true, ServiceFiles: true,
 		MaxServices: 2, MaxMethods: 3, Transport: true, BasePaths: true, OddBasePaths: true, DefaultPaths: true, Headers: true,
 		RepeatedQuery: true, QueryOnBody: true, SharedRequest: true,
 		Stratified: true, Features: Features(AllFeatures...), MultiFeature: true, AnnotatedNested: true, AnnotateAnyCard: true, MultiWordChild: true,
